@@ -486,7 +486,11 @@ def refSendReset (s : Streams) (id : Nat) (reason : Reason) : Streams :=
   | (s, .error _) => s.panic "Initiator::User should not error sending reset"
 
 /-- `StreamRef::reserve_capacity(capacity)` (no `transition` around it) -/
-def refReserveCapacity (s : Streams) (id : Nat) (capacity : Nat) : Streams := s.reserveCapacity id capacity
+def refReserveCapacity (s : Streams) (id : Nat) (capacity : Nat) : Streams :=
+  let requested := (s.stream id).requestedSendCapacity
+  let s := s.reserveCapacity id capacity
+  -- capacity given back goes to the streams waiting for it, which are then scheduled: tell the connection task
+  if (s.stream id).requestedSendCapacity < requested then s.notifyTask else s
 
 /-- `OpaqueStreamRef::poll_data(cx)` -/
 def refPollData (s : Streams) (id : Nat) (tag : String) : Streams × PollData :=
